@@ -184,19 +184,11 @@ impl Connection {
                     self.last_activity = Instant::now();
                 }
                 Err(e) if e.kind() == ErrorKind::WouldBlock => {
-                    // Can't write more right now, maintain offset
-                    // Improved backoff for pipelining scenarios
-                    attempts += 1;
-                    if attempts < MAX_ATTEMPTS {
-                        // Progressive backoff for better pipelining handling
-                        let wait_time = std::time::Duration::from_millis(attempts as u64 * 10);
-                        std::thread::sleep(wait_time);
-                        continue;
-                    } else {
-                        // After max attempts, return error but don't close connection
-                        // This allows retry on next processing cycle
-                        return Err(FerrousError::Connection("Write would block after max attempts".into()));
-                    }
+                    // The client's receive window is full (it pipelines without reading yet).
+                    // This is not an error: keep the unsent bytes and their offset; the event
+                    // loop retries on a later turn (has_pending_writes() stays true). Sleeping
+                    // here would stall every other client, and giving up would lose replies.
+                    break;
                 }
                 Err(e) if e.kind() == ErrorKind::Interrupted => {
                     // Retry interrupted operations
@@ -231,6 +223,12 @@ impl Connection {
         }
         
         Ok(())
+    }
+    
+    /// Drop whatever is still unsent (the peer is gone, the bytes can never be delivered)
+    pub fn abandon_pending_writes(&mut self) {
+        self.write_buffer.clear();
+        self.write_offset = 0;
     }
     
     /// Check if the connection has data to write
